@@ -20,6 +20,7 @@ pub mod scoping;
 pub mod sepcomp;
 pub mod staleness;
 pub mod text;
+pub mod typepos;
 
 use crate::drive::Family;
 
@@ -48,6 +49,7 @@ pub fn all() -> Vec<Box<dyn Family>> {
         Box::new(names::NamesFamily),
         Box::new(names::Encoders),
         Box::new(illtyped::IllTyped),
+        Box::new(typepos::TypePos),
         Box::new(inference::Inference),
         Box::new(sepcomp::SepComp),
         Box::new(isolation::Isolation),
